@@ -320,13 +320,18 @@ class MicrogridController(Component, Controller):
         for section in disconnected_sections:
             sensors = unique(
                 [
-                    switch.line.sensor
-                    for switch in section.switches
-                    if switch.line.sensor is not None
+                    line.sensor
+                    for line in section.lines
+                    if line.sensor is not None
                 ]
             )
             num_fails = 0
             need_manual_attention = False
+            # Lines without sensor must be inspected manually
+            for line in section.lines:
+                if line.sensor is None:
+                    need_manual_attention = True
+                    num_fails += 1 if line.failed else 0
             for sensor in sensors:
                 # If no ICT network
                 if self.ict_node is None:
@@ -367,13 +372,18 @@ class MicrogridController(Component, Controller):
         for section in connected_sections:
             sensors = unique(
                 [
-                    switch.line.sensor
-                    for switch in section.switches
-                    if switch.line.sensor is not None
+                    line.sensor
+                    for line in section.lines
+                    if line.sensor is not None
                 ]
             )
             num_fails = 0
             need_manual_attention = False
+            # Lines without sensor must be inspected manually
+            for line in section.lines:
+                if line.sensor is None:
+                    need_manual_attention = True
+                    num_fails += 1 if line.failed else 0
             # Loop sensors and count failed ones
             for sensor in sensors:
                 # If no ICT network
